@@ -24,9 +24,12 @@
 (* state per group (class, n, p, capacity, ad placement); the invariants   *)
 (* are checked for all 129 offsets of the group and the group is printed   *)
 (* as                                                                      *)
-(*   TRACE {cls, n, p, capv, adv, dmin, pred: "PPS..U..", allowed: "FFA.."} *)
+(*   TRACE {cls, n, p, capv, adv, dmin, pred: "PPS..U..", allowed: "FFA..", *)
+(*          devat: "--DD..", dev}                                           *)
 (* pred[d] in P(anic) S(ame) U(nspecified), allowed[d] in A(llowed)        *)
-(* F(orbidden), for the conformance harness to replay on the real code.    *)
+(* F(orbidden), devat[d] = D where the class's named deviation `dev` shows  *)
+(* (repaired or not), for the conformance harness to replay on the real    *)
+(* code.                                                                   *)
 (***************************************************************************)
 EXTENDS Alias, TLC, Json
 
@@ -114,7 +117,7 @@ Cat(s) == IF Len(s) = 0 THEN "" ELSE Head(s) \o Cat(Tail(s))
 Layout(x) == <<x.in.n, x.d.a - x.in.a, x.d.p, x.d.c, IF x.ad.a >= Far THEN 0 - 1000 ELSE x.ad.a - x.in.a, x.ad.n>>
 
 \* the same judgement as CallOK, from one evaluation of Allowed / Panics / Hazard / DeviationApplies per call
-Judge(x) == [a |-> Allowed(x), p |-> Panics(x), h |-> Hazard(Prog(x)), dv |-> DeviationApplies(x)]
+Judge(x) == [a |-> Allowed(x), p |-> Panics(x), h |-> Hazard(Prog(x)), dv |-> DeviationApplies(x), dr |-> DeviationRegion(x)]
 JudgeOK(r) == /\ r.a => (~r.p /\ ~r.h)                                   \* InPlaceWorks
               /\ ~r.a => (r.p \/ ~r.h \/ (~Strict /\ r.dv))              \* MisuseCaught / MisuseCaughtExcept
 OutcomeOf(r) == IF r.p THEN "P" ELSE IF r.h THEN "U" ELSE "S"
@@ -129,6 +132,7 @@ GroupOK ==
        /\ PrintT("TRACE " \o ToJson([cls |-> g.cls, n |-> g.n, p |-> g.p, capv |-> g.capv, adv |-> g.adv, dmin |-> DMin,
                                      pred |-> Cat([i \in 1..nd |-> OutcomeOf(rs[i])]),
                                      allowed |-> Cat([i \in 1..nd |-> IF rs[i].a THEN "A" ELSE "F"]),
+                                     devat |-> Cat([i \in 1..nd |-> IF rs[i].dr THEN "D" ELSE "-"]),
                                      dev |-> Deviation(GroupCall(g, 0)),
                                      lay0 |-> Layout(GroupCall(g, 0)), layMin |-> Layout(GroupCall(g, DMin))]))
 =============================================================================
